@@ -291,3 +291,722 @@ Qed.
 
 Lemma okl_pop l m : (m <= length l - 1)%nat -> okl l m -> okl (H_pop l) m.
 Proof. intros Hm H. eapply ok_ext; [|exact H]. intros p Hp. symmetry. apply F_pop. lia. Qed.
+
+(* ============================================================================================ *)
+(* 3. load accounting                                                                            *)
+(* ============================================================================================ *)
+
+(* requests dispatched to node x whose PutWrapper has not run yet *)
+Definition undone (x : Z) (r : Z * Z * bool) : bool := (snd (fst r) =? x) && negb (snd r).
+Definition out_of (rs : list (Z * Z * bool)) (x : Z) : Z := Z.of_nat (length (filter (undone x) rs)).
+Definition pen (dq : list Z) (x : Z) : Z := if memz x dq then Penalty else 0.
+Definition cons_ok (rs : list (Z * Z * bool)) (dq : list Z) (l : list node) : Prop :=
+  forall y, In y l -> load y = Idle + out_of rs (nid y) + pen dq (nid y).
+
+Lemma out_nonneg rs x : 0 <= out_of rs x.
+Proof. unfold out_of. lia. Qed.
+
+Lemma pen_nonneg dq x : 0 <= pen dq x.
+Proof. unfold pen, Penalty. destruct (memz x dq); lia. Qed.
+
+Lemma pen_in dq x : In x dq -> pen dq x = Penalty.
+Proof. intros H. unfold pen. apply memz_in in H. rewrite H. reflexivity. Qed.
+
+Lemma pen_notin dq x : ~ In x dq -> pen dq x = 0.
+Proof. intros H. unfold pen. apply memz_not in H. rewrite H. reflexivity. Qed.
+
+Lemma pen_remove kept x r y : y <> x -> pen (kept ++ x :: r) y = pen (kept ++ r) y.
+Proof.
+  intros Hne. unfold pen.
+  assert (E : memz y (kept ++ x :: r) = memz y (kept ++ r)).
+  { apply eq_true_iff_eq. rewrite !memz_in, !in_app_iff. cbn [In]. intuition congruence. }
+  rewrite E. reflexivity.
+Qed.
+
+Lemma pen_cons_ne x dq y : y <> x -> pen (x :: dq) y = pen dq y.
+Proof. intros H. apply (pen_remove [] x dq y H). Qed.
+
+Lemma out_cons r x d rs y : out_of ((r, x, d) :: rs) y = out_of rs y + (if (x =? y) && negb d then 1 else 0).
+Proof.
+  unfold out_of. cbn [filter]. unfold undone at 1. cbn [fst snd].
+  destruct ((x =? y) && negb d); cbn [length]; lia.
+Qed.
+
+Lemma cons_perm rs dq l l' : Permutation l' l -> cons_ok rs dq l -> cons_ok rs dq l'.
+Proof. intros P H y Hy. apply H. eapply Permutation_in; eassumption. Qed.
+
+Lemma cons_ge_idle rs dq l y : cons_ok rs dq l -> In y l -> Idle <= load y.
+Proof. intros H Hy. rewrite (H y Hy). pose proof (out_nonneg rs (nid y)). pose proof (pen_nonneg dq (nid y)). lia. Qed.
+
+Lemma cons_set_load rs dq rs' dq' l i v :
+  NoDup (map nid l) -> (1 <= i <= length l)%nat ->
+  cons_ok rs dq l ->
+  (forall y, y <> nid (F l i) -> out_of rs' y = out_of rs y /\ pen dq' y = pen dq y) ->
+  v = Idle + out_of rs' (nid (F l i)) + pen dq' (nid (F l i)) ->
+  cons_ok rs' dq' (H_set_load l i v).
+Proof.
+  intros ND Hi H Hoth Hv y Hy. apply (in_set_load l i v y ND Hi) in Hy as [->|[Hy Hne]].
+  - cbn [set_load load nid]. exact Hv.
+  - destruct (Hoth (nid y) Hne) as [E1 E2]. rewrite E1, E2. apply H. exact Hy.
+Qed.
+
+Lemma nodup_ids l l' : Permutation (ids l') (ids l) -> NoDup (map nid l) -> NoDup (map nid l').
+Proof.
+  intros P H. rewrite ids_nid in *. eapply Permutation_NoDup; [|exact H].
+  apply Permutation_map. symmetry. exact P.
+Qed.
+
+Lemma in_nid_ids l l' x : Permutation (ids l') (ids l) -> In x (map nid l) -> In x (map nid l').
+Proof.
+  intros P H. rewrite ids_nid in *. eapply Permutation_in; [|exact H]. apply Permutation_map. symmetry. exact P.
+Qed.
+
+Lemma len_ids l l' : Permutation (ids l') (ids l) -> length l' = length l.
+Proof. intros P. apply Permutation_length in P. unfold ids in P. rewrite !map_length in P. exact P. Qed.
+
+Lemma ids_fix_up_set l i v : (1 <= i <= length l)%nat -> Permutation (ids (H_fix_up (H_set_load l i v) i)) (ids l).
+Proof.
+  intros Hi. rewrite <- (ids_set_load l i v). apply ids_perm. apply perm_fix_up. rewrite len_set_load. exact Hi.
+Qed.
+
+Lemma ids_fix_down_set l i v j : (1 <= i)%nat -> (j <= length l)%nat ->
+  Permutation (ids (H_fix_down (H_set_load l i v) i j)) (ids l).
+Proof.
+  intros Hi Hj. rewrite <- (ids_set_load l i v). apply ids_perm. apply perm_fix_down; [exact Hi|]. rewrite len_set_load. exact Hj.
+Qed.
+
+Lemma nid_F_in l p : (1 <= p <= length l)%nat -> In (nid (F l p)) (map nid l).
+Proof. intros Hp. apply in_map. apply in_F. exact Hp. Qed.
+
+(* ============================================================================================ *)
+(* 4. __Get                                                                                      *)
+(* ============================================================================================ *)
+
+Definition HS (rs : list (Z * Z * bool)) (l : list node) (dq : list Z) : Prop :=
+  okl l (length l) /\ NoDup (map nid l) /\ NoDup dq /\ cons_ok rs dq l.
+
+Lemma walk_spec rs chan : forall dq kept l l' dq' ev,
+  walk chan l dq = (l', dq', ev) ->
+  HS rs l (kept ++ dq) ->
+  HS rs l' (kept ++ dq') /\ Permutation (ids l') (ids l) /\
+  (forall x, In x dq' -> In x dq /\ In x (map nid l') /\ chan x <> ST_OPEN) /\
+  (forall e, In e ev -> exists ep, e = EUp ep).
+Proof.
+  induction dq as [|x r IH]; intros kept l l' dq' ev W H.
+  - cbn in W. inversion W; subst. split; [exact H|]. split; [reflexivity|]. split; [intros x []|intros e []].
+  - cbn [walk] in W. destruct H as (Hok & Hnd & Hdq & Hc).
+    destruct (pos_of_nid l x) as [i|] eqn:P.
+    + apply pos_of_nid_some in P as [Hi Hx].
+      assert (Hxk : ~ In x (kept ++ r)) by (apply NoDup_remove_2 in Hdq; exact Hdq).
+      assert (Hdq' : NoDup (kept ++ r)) by (apply NoDup_remove_1 in Hdq; exact Hdq).
+      destruct (chan x =? ST_OPEN) eqn:C.
+      * (* resurrected *)
+        set (l1 := H_fix_up (H_set_load l i (load (H_at l i) - Penalty)) i) in W.
+        destruct (walk chan l1 r) as [[l2 r'] ev'] eqn:W1. inversion W; subst l' dq' ev. clear W.
+        assert (P1 : Permutation (ids l1) (ids l)) by (apply ids_fix_up_set; exact Hi).
+        assert (L1 : length l1 = length l) by (apply len_ids; exact P1).
+        assert (H1 : HS rs l1 (kept ++ r)).
+        { repeat split.
+          - rewrite L1. apply okl_set_up; [exact Hi|exact Hok|]. unfold H_at, Penalty. lia.
+          - eapply nodup_ids; eassumption.
+          - exact Hdq'.
+          - eapply cons_perm; [apply perm_fix_up; rewrite len_set_load; exact Hi|].
+            eapply cons_set_load; try eassumption.
+            + intros y Hy. split; [reflexivity|]. rewrite Hx in Hy. symmetry. apply pen_remove. exact Hy.
+            + unfold H_at. rewrite (Hc (F l i) (in_F l i Hi)). rewrite Hx.
+              rewrite (pen_in (kept ++ x :: r) x) by (apply in_app_iff; right; left; reflexivity).
+              rewrite (pen_notin (kept ++ r) x Hxk). lia. }
+        destruct (IH kept l1 l2 r' ev' W1 H1) as (R1 & R2 & R3 & R4).
+        repeat split; try apply R1.
+        -- etransitivity; eassumption.
+        -- right. apply R3. exact H.
+        -- apply R3. exact H.
+        -- apply R3. exact H.
+        -- intros e [<-|He]; [eexists; reflexivity|apply R4; exact He].
+      * (* still down: stays in the list *)
+        destruct (walk chan l r) as [[l2 r'] ev'] eqn:W1. inversion W; subst l' dq' ev. clear W.
+        assert (H1 : HS rs l ((kept ++ [x]) ++ r)).
+        { rewrite <- app_assoc. cbn [app]. repeat split; assumption. }
+        destruct (IH (kept ++ [x]) l l2 r' ev' W1 H1) as (R1 & R2 & R3 & R4).
+        rewrite <- app_assoc in R1. cbn [app] in R1.
+        repeat split; try apply R1; try assumption.
+        -- destruct H as [<-|H]; [left; reflexivity|right; apply R3; exact H].
+        -- destruct H as [<-|H]; [|apply R3; exact H].
+           eapply in_nid_ids; [exact R2|]. rewrite <- Hx. apply nid_F_in. exact Hi.
+        -- destruct H as [<-|H]; [|apply R3; exact H]. unfold ST_OPEN in *. lia.
+    + (* discarded node: unlinked *)
+      apply pos_of_nid_none in P.
+      assert (H1 : HS rs l (kept ++ r)).
+      { repeat split; try assumption.
+        - apply NoDup_remove_1 in Hdq. exact Hdq.
+        - intros y Hy. rewrite (Hc y Hy). f_equal. apply pen_remove. intros E. apply P. rewrite <- E. apply in_map. exact Hy. }
+      destruct (IH kept l l' dq' ev W H1) as (R1 & R2 & R3 & R4).
+      repeat split; try apply R1; try assumption.
+      -- right. apply R3. exact H.
+      -- apply R3. exact H.
+      -- apply R3. exact H.
+Qed.
+
+Lemma get_spec rs chan : forall fuel l dq l' dq' ev,
+  get fuel chan l dq = Some (l', dq', ev) ->
+  (1 <= length l)%nat -> HS rs l dq ->
+  HS rs l' dq' /\ Permutation (ids l') (ids l) /\
+  (forall x, In x dq' -> In x (map nid l') /\ chan x <> ST_OPEN) /\
+  (forall x, In x dq' -> In x dq \/ In x (map nid l)) /\
+  (chan (nid (F l' 1%nat)) = ST_OPEN \/ 0 <= load (F l' 1%nat)) /\
+  (forall e, In e ev -> exists ep, e = EUp ep \/ e = EDown ep).
+Proof.
+  induction fuel as [|fu IH]; intros l dq l' dq' ev G Hlen H; [discriminate|].
+  cbn [get] in G. destruct (walk chan l dq) as [[l1 dq1] ev1] eqn:W.
+  destruct (walk_spec rs chan dq [] l l1 dq1 ev1 W H) as (H1 & P1 & D1 & E1). cbn [app] in H1.
+  assert (L1 : length l1 = length l) by (apply len_ids; exact P1).
+  destruct ((chan (nid (H_at l1 1%nat)) =? ST_OPEN) || (0 <=? load (H_at l1 1%nat))) eqn:C.
+  - inversion G; subst l' dq' ev. clear G. split; [exact H1|]. split; [exact P1|].
+    split; [intros x Hx; apply D1; exact Hx|]. split; [intros x Hx; left; apply D1; exact Hx|].
+    split; [unfold H_at in C; lia|]. intros e He. destruct (E1 e He) as [ep ->]. exists ep. left. reflexivity.
+  - set (r := H_at l1 1%nat) in *.
+    set (l2 := H_fix_down (H_set_load l1 1%nat (load r + Penalty)) 1%nat (length l1)) in G.
+    destruct (get fu chan l2 (nid r :: dq1)) as [[[l3 dq3] ev3]|] eqn:G2; [|discriminate].
+    inversion G; subst l' dq' ev. clear G.
+    destruct H1 as (Hok & Hnd & Hdq & Hc).
+    assert (Hr1 : (1 <= 1 <= length l1)%nat) by lia.
+    assert (Hrin : In r l1) by (apply in_F; exact Hr1).
+    assert (Hrneg : load r < 0) by lia.
+    assert (Hrdq : ~ In (nid r) dq1).
+    { intros Hin. rewrite (Hc r Hrin) in Hrneg. rewrite (pen_in dq1 _ Hin) in Hrneg.
+      pose proof (out_nonneg rs (nid r)). unfold Idle, Penalty in Hrneg. lia. }
+    assert (P2 : Permutation (ids l2) (ids l1)) by (apply ids_fix_down_set; lia).
+    assert (L2 : length l2 = length l1) by (apply len_ids; exact P2).
+    assert (H2 : HS rs l2 (nid r :: dq1)).
+    { repeat split.
+      - rewrite L2. apply okl_set_down; [lia|exact Hok|]. fold (H_at l1 1%nat). fold r. unfold Penalty. lia.
+      - eapply nodup_ids; eassumption.
+      - constructor; assumption.
+      - eapply cons_perm; [apply perm_fix_down; [lia|rewrite len_set_load; lia]|].
+        eapply cons_set_load; try eassumption.
+        + intros y Hy. split; [reflexivity|]. apply pen_cons_ne. exact Hy.
+        + fold (H_at l1 1%nat). fold r. rewrite (Hc r Hrin). rewrite (pen_notin dq1 _ Hrdq).
+          rewrite (pen_in (nid r :: dq1) (nid r)) by (left; reflexivity). lia. }
+    destruct (IH l2 (nid r :: dq1) l3 dq3 ev3 G2 ltac:(lia) H2) as (R1 & R2 & R3 & R4 & R5 & R6).
+    split; [exact R1|]. split; [etransitivity; [exact R2|]; etransitivity; eassumption|].
+    split; [exact R3|]. split.
+    + intros x Hx. destruct (R4 x Hx) as [[<-|Hin]|Hin].
+      * right. eapply in_nid_ids; [symmetry; exact P1|]. apply in_map. exact Hrin.
+      * left. apply D1. exact Hin.
+      * right. eapply in_nid_ids; [symmetry; exact P1|]. eapply in_nid_ids; [symmetry; exact P2|]. exact Hin.
+    + split; [exact R5|]. intros e He. apply in_app_iff in He as [He|[<-|He]].
+      * destruct (E1 e He) as [ep ->]. exists ep. left. reflexivity.
+      * eexists. right. reflexivity.
+      * apply R6. exact He.
+Qed.
+
+(* ============================================================================================ *)
+(* 5. the invariant                                                                              *)
+(* ============================================================================================ *)
+
+Definition dnids (d : list (node * bool)) : list Z := map (fun p => nid (fst p)) d.
+
+Record Core (s : state) : Prop := mkCore {
+  c_ok    : okl (heap s) (length (heap s));
+  c_nodup : NoDup (map nid (heap s) ++ dnids (detached s));
+  c_dq    : NoDup (downq s);
+  c_cons  : cons_ok (reqs s) (downq s) (heap s);
+  c_dcons : forall x b, In (x, b) (detached s) ->
+            load x = Idle + out_of (reqs s) (nid x) + (if b then Penalty else 0);
+  c_reqs  : forall r x, In (r, x, false) (reqs s) -> In x (map nid (heap s) ++ dnids (detached s));
+  c_fresh : forall x, In x (map nid (heap s) ++ dnids (detached s) ++ downq s) -> x < next_nid s;
+  c_srv   : NoDup (servers s) /\ NoDup (map nep (heap s)) /\
+            (forall ep, In ep (map nep (heap s)) <-> In ep (servers s)) }.
+
+Lemma perm_nid l l' : Permutation (ids l') (ids l) -> Permutation (map nid l') (map nid l).
+Proof. intros P. rewrite !ids_nid. apply Permutation_map. exact P. Qed.
+
+Lemma perm_nep l l' : Permutation (ids l') (ids l) -> Permutation (map nep l') (map nep l).
+Proof. intros P. rewrite !ids_nep. apply Permutation_map. exact P. Qed.
+
+Lemma nodup_disj {A} (a b : list A) x : NoDup (a ++ b) -> In x a -> In x b -> False.
+Proof.
+  induction a as [|y a IH]; intros ND Ha Hb; [destruct Ha|].
+  cbn in ND. inversion ND as [|? ? Hn ND']; subst. destruct Ha as [->|Ha].
+  - apply Hn. apply in_app_iff. right. exact Hb.
+  - eapply IH; eassumption.
+Qed.
+
+Lemma nodup_app_l {A} (a b : list A) : NoDup (a ++ b) -> NoDup a.
+Proof. induction a as [|y a IH]; intros ND; [constructor|]. cbn in ND. inversion ND; subst. constructor; [|apply IH; assumption].
+  intros H. apply H1. apply in_app_iff. left. exact H. Qed.
+
+Lemma nodup_app_r {A} (a b : list A) : NoDup (a ++ b) -> NoDup b.
+Proof. induction a as [|y a IH]; intros ND; [exact ND|]. cbn in ND. inversion ND; subst. apply IH. assumption. Qed.
+
+Lemma core_HS s : Core s -> HS (reqs s) (heap s) (downq s).
+Proof. intros C. repeat split; try apply C. eapply nodup_app_l. apply C. Qed.
+
+Lemma find_req_in rs rid x d : find_req rs rid = Some (x, d) -> In (rid, x, d) rs.
+Proof.
+  induction rs as [|[[r y] e] t IH]; cbn; [discriminate|]. destruct (Z.eqb_spec r rid) as [->|].
+  - intros E. inversion E; subst. left. reflexivity.
+  - intros E. right. apply IH. exact E.
+Qed.
+
+(* a heap that differs from the old one by loads only (same nodes, same endpoints), with the
+   accounting re-established, keeps the invariant *)
+Lemma core_same_ids s l dq rs nr d' :
+  Core s ->
+  Permutation (ids l) (ids (heap s)) ->
+  okl l (length l) -> NoDup dq -> cons_ok rs dq l ->
+  dnids d' = dnids (detached s) ->
+  (forall x b, In (x, b) d' -> load x = Idle + out_of rs (nid x) + (if b then Penalty else 0)) ->
+  (forall r x, In (r, x, false) rs -> In (r, x, false) (reqs s) \/ In x (map nid l)) ->
+  (forall x, In x dq -> In x (downq s) \/ In x (map nid (heap s))) ->
+  Core (mkState l dq d' (servers s) (next_nid s) rs nr (chans s) (st0 s) (init_done s) (blocked s)).
+Proof.
+  intros C P Hok Hdq Hc Ed Hd Hr Hq.
+  pose proof (perm_nid _ _ P) as Pn. pose proof (perm_nep _ _ P) as Pe.
+  constructor; cbn [heap downq detached servers next_nid reqs]; rewrite ?Ed.
+  - exact Hok.
+  - eapply Permutation_NoDup; [|apply (c_nodup s C)]. apply Permutation_app_tail. symmetry. exact Pn.
+  - exact Hdq.
+  - exact Hc.
+  - exact Hd.
+  - intros r x Hin. destruct (Hr r x Hin) as [H|H].
+    + apply (c_reqs s C) in H. apply in_app_iff in H as [H|H]; apply in_app_iff; [left|right; exact H].
+      eapply Permutation_in; [symmetry; exact Pn|exact H].
+    + apply in_app_iff. left. exact H.
+  - intros x Hin. apply (c_fresh s C). rewrite !in_app_iff in *. destruct Hin as [H|[H|H]].
+    + left. eapply Permutation_in; [exact Pn|exact H].
+    + right. left. exact H.
+    + destruct (Hq x H) as [H'|H']; [right; right; exact H'|left; exact H'].
+  - destruct (c_srv s C) as (S1 & S2 & S3). split; [exact S1|]. split.
+    + eapply Permutation_NoDup; [symmetry; exact Pe|exact S2].
+    + intros ep. rewrite <- S3. split; intros H; eapply Permutation_in; try exact H; [exact Pe|symmetry; exact Pe].
+Qed.
+
+Lemma core_dispatch s s' o : Core s -> do_dispatch s = (s', o) -> Core s'.
+Proof.
+  intros C D. unfold do_dispatch in D.
+  destruct (negb (init_done s)); [inversion D; subst; exact C|].
+  destruct (heap s) as [|h0 t0] eqn:Eh; [inversion D; subst; exact C|]. rewrite <- Eh in *.
+  assert (Hlen : (1 <= length (heap s))%nat) by (rewrite Eh; cbn; lia).
+  destruct (get (S (length (heap s))) (lookup_chan s) (heap s) (downq s)) as [[[l1 dq1] ev]|] eqn:G;
+    [|inversion D; subst; exact C].
+  inversion D; subst s' o. clear D.
+  destruct (get_spec (reqs s) _ _ _ _ _ _ _ G Hlen (core_HS s C)) as (H1 & P1 & D1 & Q1 & _ & _).
+  destruct H1 as (Hok & Hnd & Hdq & Hc).
+  assert (L1 : length l1 = length (heap s)) by (apply len_ids; exact P1).
+  set (r := H_at l1 1%nat) in *.
+  assert (Hr1 : (1 <= 1 <= length l1)%nat) by lia.
+  assert (Hrin : In r l1) by (apply in_F; exact Hr1).
+  set (l2 := H_fix_down (H_set_load l1 1%nat (load r + 1)) 1%nat (length l1)).
+  assert (P2 : Permutation (ids l2) (ids l1)) by (apply ids_fix_down_set; lia).
+  assert (L2 : length l2 = length l1) by (apply len_ids; exact P2).
+  assert (Hrh : In (nid r) (map nid (heap s))).
+  { eapply in_nid_ids; [symmetry; exact P1|]. apply in_map. exact Hrin. }
+  assert (O1 : forall y, y <> nid r -> out_of ((next_rid s, nid r, false) :: reqs s) y = out_of (reqs s) y).
+  { intros y Hy. rewrite out_cons. destruct (Z.eqb_spec (nid r) y); [congruence|]. cbn [andb]. lia. }
+  assert (O2 : out_of ((next_rid s, nid r, false) :: reqs s) (nid r) = out_of (reqs s) (nid r) + 1).
+  { rewrite out_cons. rewrite Z.eqb_refl. reflexivity. }
+  apply core_same_ids; try assumption.
+  - etransitivity; eassumption.
+  - change (okl l2 (length l2)). rewrite L2. apply okl_set_down; [lia|exact Hok|]. fold (H_at l1 1%nat). fold r. lia.
+  - eapply cons_perm; [apply perm_fix_down; [lia|rewrite len_set_load; lia]|].
+    eapply cons_set_load; try eassumption.
+    + intros y Hy. split; [|reflexivity]. apply O1. exact Hy.
+    + change (load r + 1 = Idle + out_of ((next_rid s, nid r, false) :: reqs s) (nid r) + pen dq1 (nid r)).
+      rewrite O2. rewrite (Hc r Hrin). lia.
+  - reflexivity.
+  - intros x b Hin. rewrite O1; [apply (c_dcons s C); exact Hin|]. intros E.
+    eapply (nodup_disj _ _ (nid r) (c_nodup s C)); [exact Hrh|].
+    rewrite <- E. unfold dnids. apply in_map_iff. exists (x, b). split; [reflexivity|exact Hin].
+  - intros r0 x [E|Hin]; [|left; exact Hin]. inversion E; subst. right.
+    eapply in_nid_ids; [exact P2|]. apply in_map. exact Hrin.
+Qed.
+
+(* ---------------------------------------------------------------------------------------------- *)
+(* __Put                                                                                           *)
+(* ---------------------------------------------------------------------------------------------- *)
+Lemma out_mark_done rs rid x : find_req rs rid = Some (x, false) ->
+  forall y, out_of (mark_done rs rid) y = out_of rs y - (if x =? y then 1 else 0).
+Proof.
+  induction rs as [|[[r z] e] t IH]; cbn [find_req mark_done]; [discriminate|].
+  destruct (Z.eqb_spec r rid) as [->|Hne]; intros E y.
+  - inversion E; subst. rewrite !out_cons. cbn [negb andb]. rewrite andb_false_r.
+    destruct (x =? y); cbn [andb]; lia.
+  - rewrite !out_cons. rewrite (IH E y). lia.
+Qed.
+
+Lemma in_mark_done rs rid r y : In (r, y, false) (mark_done rs rid) -> In (r, y, false) rs.
+Proof.
+  induction rs as [|[[r0 z] e] t IH]; cbn [mark_done]; [intros []|].
+  destruct (Z.eqb_spec r0 rid) as [->|Hne]; intros [E|H].
+  - discriminate.
+  - right. exact H.
+  - left. exact E.
+  - right. apply IH. exact H.
+Qed.
+
+Lemma out_pos rs r x : In (r, x, false) rs -> 1 <= out_of rs x.
+Proof.
+  intros H. unfold out_of.
+  assert (Hf : In (r, x, false) (filter (undone x) rs)).
+  { apply filter_In. split; [exact H|]. unfold undone. cbn. rewrite Z.eqb_refl. reflexivity. }
+  destruct (filter (undone x) rs); [destruct Hf|]. cbn [length]. lia.
+Qed.
+
+Lemma clamp_ge v : Idle <= v -> clamp v = (v, []).
+Proof. intros H. unfold clamp. destruct (Z.ltb_spec v Idle); [lia|reflexivity]. Qed.
+
+Lemma put_detached_none d x : put_detached d x = None -> ~ In x (dnids d).
+Proof.
+  induction d as [|[nd b] t IH]; cbn [put_detached dnids map]; [intros _ []|].
+  destruct (Z.eqb_spec (nid nd) x) as [E|Hne].
+  - destruct (clamp (load nd - 1)). discriminate.
+  - destruct (put_detached t x) as [[r' ev]|] eqn:P; [discriminate|]. intros _ [H|H]; [cbn in H; lia|].
+    apply IH; [reflexivity|exact H].
+Qed.
+
+Lemma put_detached_spec d x d' ev : put_detached d x = Some (d', ev) -> NoDup (dnids d) ->
+  dnids d' = dnids d /\
+  exists nd b, In (nd, b) d /\ nid nd = x /\
+    ev = snd (clamp (load nd - 1)) ++ (if fst (clamp (load nd - 1)) =? Idle then [EClose x] else []) /\
+    forall y c, In (y, c) d' ->
+      (y = set_load nd (fst (clamp (load nd - 1))) /\ c = b) \/ (In (y, c) d /\ nid y <> x).
+Proof.
+  revert d' ev. induction d as [|[nd b] t IH]; intros d' ev; cbn [put_detached]; [discriminate|].
+  cbn [dnids map fst]. intros H ND. inversion ND as [|? ? Hn ND']; subst.
+  destruct (Z.eqb_spec (nid nd) x) as [E|Hne].
+  - destruct (clamp (load nd - 1)) as [v e0] eqn:Cl. inversion H; subst d' ev. clear H.
+    split; [reflexivity|]. exists nd, b. rewrite Cl. cbn [fst snd]. split; [left; reflexivity|]. split; [exact E|].
+    split; [reflexivity|]. intros y c [H|H].
+    + inversion H; subst. left. split; reflexivity.
+    + right. split; [right; exact H|]. intros E2. apply Hn. rewrite E, <- E2.
+      apply in_map_iff. exists (y, c). split; [reflexivity|exact H].
+  - destruct (put_detached t x) as [[r' ev']|] eqn:P; [|discriminate]. inversion H; subst d' ev. clear H.
+    destruct (IH r' ev' eq_refl ND') as (E1 & nd1 & b1 & I1 & I2 & I3 & I4).
+    split; [cbn [dnids map fst]; f_equal; exact E1|]. exists nd1, b1. split; [right; exact I1|].
+    split; [exact I2|]. split; [exact I3|]. intros y c [H|H].
+    + inversion H; subst. right. split; [left; reflexivity|exact Hne].
+    + destruct (I4 y c H) as [L|[R1 R2]]; [left; exact L|right; split; [right; exact R1|exact R2]].
+Qed.
+
+Lemma in_dnids d x b : In (x, b) d -> In (nid x) (dnids d).
+Proof. intros H. unfold dnids. apply in_map_iff. exists (x, b). split; [reflexivity|exact H]. Qed.
+
+(* __Put of a request that was outstanding: the node is found, nothing is clamped, no warning *)
+Lemma core_put s rid x j s' res ev :
+  Core s -> find_req (reqs s) rid = Some (x, false) ->
+  do_put (set_reqs s (mark_done (reqs s) rid)) x j = (s', (res, ev)) ->
+  res <> RBadRand ->
+  Core s' /\ res <> RGhost /\ ~ In EWarn ev.
+Proof.
+  intros C Fr D Hres.
+  pose proof (find_req_in _ _ _ _ Fr) as Hin.
+  pose proof (out_pos _ _ _ Hin) as Hpos.
+  pose proof (out_mark_done _ _ _ Fr) as Om.
+  set (rs' := mark_done (reqs s) rid) in *.
+  assert (Omx : out_of rs' x = out_of (reqs s) x - 1) by (rewrite Om, Z.eqb_refl; reflexivity).
+  assert (Omy : forall y, y <> x -> out_of rs' y = out_of (reqs s) y).
+  { intros y Hy. rewrite Om. destruct (Z.eqb_spec x y); [congruence|lia]. }
+  assert (Hrs : forall r y, In (r, y, false) rs' -> In (r, y, false) (reqs s)) by (intros r y; apply in_mark_done).
+  destruct (core_HS s C) as (Hok & Hnd & Hdq & Hc).
+  unfold do_put in D. cbn [heap set_reqs detached] in D.
+  destruct (pos_of_nid (heap s) x) as [i|] eqn:P.
+  - apply pos_of_nid_some in P as [Hi Hx].
+    set (l := heap s) in *. set (nd := H_at l i) in *.
+    assert (Hndin : In nd l) by (apply in_F; exact Hi).
+    assert (Hload : load nd = Idle + out_of (reqs s) x + pen (downq s) x).
+    { rewrite (Hc nd Hndin). unfold nd, H_at. rewrite Hx. reflexivity. }
+    pose proof (pen_nonneg (downq s) x) as Hpen.
+    rewrite (clamp_ge (load nd - 1)) in D by lia.
+    set (l1 := H_set_load l i (load nd - 1)) in *.
+    assert (Hc1 : cons_ok rs' (downq s) l1).
+    { eapply cons_set_load; try eassumption.
+      - intros y Hy. split; [|reflexivity]. apply Omy. rewrite <- Hx. exact Hy.
+      - fold (H_at l i). fold nd. unfold nd, H_at. rewrite Hx. fold (H_at l i). fold nd. rewrite Omx. lia. }
+    assert (L1 : length l1 = length l) by apply len_set_load.
+    assert (I1 : ids l1 = ids l) by apply ids_set_load.
+    assert (Fin : forall l', Permutation (ids l') (ids l) -> okl l' (length l') -> cons_ok rs' (downq s) l' ->
+              Core (set_heap (set_reqs s rs') l')).
+    { intros l' P' O' C'. unfold set_heap, set_reqs. cbn [heap downq detached servers next_nid reqs next_rid chans st0 init_done blocked].
+      apply core_same_ids; try assumption.
+      - reflexivity.
+      - intros y b Hy. rewrite Omy; [apply (c_dcons s C); exact Hy|]. intros E.
+        eapply (nodup_disj _ _ x (c_nodup s C)); [rewrite <- Hx; apply nid_F_in; exact Hi|].
+        rewrite <- E. eapply in_dnids. exact Hy.
+      - intros r y Hy. left. apply Hrs. exact Hy.
+      - intros y Hy. left. exact Hy. }
+    destruct ((load nd - 1 =? Idle) && (1 <? Z.of_nat (length l))) eqn:Br.
+    + destruct ((1 <=? j) && (j <=? Z.of_nat (length l))) eqn:Bj; [|inversion D; subst; congruence].
+      inversion D; subst s' res ev. clear D.
+      split; [|split; [discriminate|intros []]].
+      pose proof (okl_remove l l1 i L1 Hi Hok) as R. cbn zeta in R.
+      destruct R as (R1 & R2 & R3 & R4).
+      { intros p Hp Hne. unfold l1. rewrite F_set_load by exact Hp. destruct (Nat.eqb_spec p i); [lia|reflexivity]. }
+      set (l4 := if Nat.eqb i (length l) then H_fix_down (H_swap l1 i (length l)) i (length l - 1)
+                 else H_fix_up (H_fix_down (H_swap l1 i (length l)) i (length l - 1)) i) in *.
+      assert (Hc4 : cons_ok rs' (downq s) l4) by (eapply cons_perm; eassumption).
+      set (jn := Z.to_nat j).
+      assert (Hjn : (1 <= jn <= length l4)%nat) by lia.
+      pose proof (okl_reinsert l4 jn Hjn) as R5. cbn zeta in R5. rewrite R4 in R5.
+      apply Fin.
+      * rewrite <- I1. apply ids_perm.
+        etransitivity; [apply perm_fix_up; rewrite len_fix_up, len_swap; lia|].
+        etransitivity; [apply perm_fix_up; rewrite len_swap; lia|].
+        etransitivity; [apply perm_swap; lia|]. exact R3.
+      * rewrite !len_fix_up, len_swap, R4. apply R5; [exact R1|].
+        intros p Hp. rewrite R2. unfold l1. rewrite F_set_load by lia. rewrite Nat.eqb_refl. cbn [set_load load].
+        fold (H_at l i). fold nd. replace (load nd - 1) with Idle by lia.
+        eapply cons_ge_idle; [exact Hc4|]. apply in_F. lia.
+      * eapply cons_perm; [|exact Hc4].
+        etransitivity; [apply perm_fix_up; rewrite len_fix_up, len_swap; lia|].
+        etransitivity; [apply perm_fix_up; rewrite len_swap; lia|]. apply perm_swap; lia.
+    + inversion D; subst s' res ev. clear D.
+      split; [|split; [discriminate|intros []]].
+      apply Fin.
+      * rewrite <- I1. apply ids_perm. apply perm_fix_up. lia.
+      * rewrite len_fix_up, L1. apply okl_set_up; [exact Hi|exact Hok|]. fold (H_at l i). fold nd. lia.
+      * eapply cons_perm; [apply perm_fix_up; lia|exact Hc1].
+  - apply pos_of_nid_none in P.
+    assert (Hxd : In x (dnids (detached s))).
+    { pose proof (c_reqs s C _ _ Hin) as H. apply in_app_iff in H as [H|H]; [contradiction|exact H]. }
+    destruct (put_detached (detached s) x) as [[d' ev']|] eqn:Pd.
+    + inversion D; subst s' res ev. clear D.
+      assert (NDd : NoDup (dnids (detached s))).
+      { pose proof (c_nodup s C) as H. apply nodup_app_r in H. exact H. }
+      destruct (put_detached_spec _ _ _ _ Pd NDd) as (E1 & nd & b & I1 & I2 & I3 & I4).
+      pose proof (c_dcons s C nd b I1) as Hload. rewrite I2 in Hload.
+      assert (Hb : 0 <= (if b then Penalty else 0)) by (unfold Penalty; destruct b; lia).
+      rewrite (clamp_ge (load nd - 1)) in I3, I4 by lia. cbn [fst snd] in I3, I4.
+      split; [|split; [discriminate|]].
+      * unfold set_detached, set_reqs. cbn [heap downq detached servers next_nid reqs next_rid chans st0 init_done blocked].
+        apply core_same_ids; try assumption.
+        -- reflexivity.
+        -- intros y Hy. rewrite (Hc y Hy). rewrite Omy; [reflexivity|]. intros E. apply P. rewrite <- E. apply in_map. exact Hy.
+        -- intros y c Hy. destruct (I4 y c Hy) as [[-> ->]|[Hy1 Hy2]].
+           ++ cbn [set_load load nid]. rewrite I2, Omx. lia.
+           ++ rewrite Omy by exact Hy2. apply (c_dcons s C). exact Hy1.
+        -- intros r y Hy. left. apply Hrs. exact Hy.
+        -- intros y Hy. left. exact Hy.
+      * rewrite I3. cbn [app]. destruct (load nd - 1 =? Idle); [intros [H|[]]; discriminate|intros []].
+    + exfalso. eapply put_detached_none; eassumption.
+Qed.
+
+Lemma core_complete s rid j s' o : Core s -> do_complete s rid j = (s', o) -> Core s'.
+Proof.
+  intros C D. unfold do_complete in D.
+  destruct (find_req (reqs s) rid) as [[x [|]]|] eqn:Fr; try (inversion D; subst; exact C).
+  destruct (do_put (set_reqs s (mark_done (reqs s) rid)) x j) as [s1 [res ev]] eqn:P.
+  destruct res; inversion D; subst; try exact C;
+    (refine (proj1 (core_put s rid x j _ _ _ C Fr P _)); discriminate).
+Qed.
+
+(* ---------------------------------------------------------------------------------------------- *)
+(* membership changes                                                                              *)
+(* ---------------------------------------------------------------------------------------------- *)
+Lemma out_zero rs x : (forall r, ~ In (r, x, false) rs) -> out_of rs x = 0.
+Proof.
+  intros H. unfold out_of. destruct (filter (undone x) rs) as [|[[r y] d] t] eqn:E; [reflexivity|].
+  exfalso. assert (Hin : In (r, y, d) (filter (undone x) rs)) by (rewrite E; left; reflexivity).
+  apply filter_In in Hin as [H1 H2]. unfold undone in H2. cbn in H2.
+  destruct d; [rewrite andb_false_r in H2; discriminate|]. apply (H r).
+  assert (y = x) by lia. subst. exact H1.
+Qed.
+
+Lemma in_remz e x l : In e (remz x l) <-> In e l /\ e <> x.
+Proof.
+  unfold remz. rewrite filter_In. split; intros [H1 H2]; (split; [exact H1|]).
+  - intros ->. rewrite Z.eqb_refl in H2. discriminate.
+  - destruct (Z.eqb_spec x e); [congruence|reflexivity].
+Qed.
+
+Lemma core_add s ep s' ev : Core s -> do_add_server s ep = (s', ev) -> Core s'.
+Proof.
+  intros C D. unfold do_add_server in D.
+  destruct (memz ep (servers s)) eqn:M; [inversion D; subst; exact C|].
+  inversion D; subst s' ev. clear D. apply memz_not in M.
+  set (N := next_nid s). set (nd := mkNode N ep Idle). set (l := heap s).
+  set (l2 := H_fix_up (l ++ [nd]) (length (l ++ [nd]))).
+  assert (La : length (l ++ [nd]) = S (length l)) by (rewrite app_length; cbn; lia).
+  assert (P2 : Permutation l2 (nd :: l)).
+  { etransitivity; [apply perm_fix_up; lia|]. symmetry. apply Permutation_cons_append. }
+  assert (L2 : length l2 = S (length l)) by (unfold l2; rewrite len_fix_up; exact La).
+  pose proof (c_fresh s C) as Fr. destruct (c_srv s C) as (S1 & S2 & S3).
+  assert (HN : ~ In N (map nid l ++ dnids (detached s))).
+  { intros H. assert (N < N); [|lia]. apply Fr. rewrite app_assoc. apply in_app_iff. left. exact H. }
+  assert (HNdq : ~ In N (downq s)).
+  { intros H. assert (N < N); [|lia]. apply Fr. rewrite app_assoc. apply in_app_iff. right. exact H. }
+  constructor; cbn [heap downq detached servers next_nid reqs]; fold l N nd l2.
+  - rewrite L2. unfold l2. rewrite La. apply okl_add. apply C.
+  - eapply Permutation_NoDup; [apply Permutation_app_tail; apply Permutation_map; symmetry; exact P2|].
+    cbn [map app nid nd]. constructor; [exact HN|apply C].
+  - apply C.
+  - eapply cons_perm; [exact P2|]. intros y [<-|Hy]; [|apply (c_cons s C); exact Hy].
+    cbn [load nid nd]. rewrite pen_notin by exact HNdq. rewrite out_zero; [lia|].
+    intros r Hr. apply HN. apply (c_reqs s C r). exact Hr.
+  - apply C.
+  - intros r x Hr. apply (c_reqs s C) in Hr. rewrite in_app_iff in *. destruct Hr as [H|H]; [left|right; exact H].
+    eapply Permutation_in; [apply Permutation_map; symmetry; exact P2|]. right. exact H.
+  - intros x Hx. rewrite !in_app_iff in Hx. destruct Hx as [H|H].
+    + apply (Permutation_in _ (Permutation_map nid P2)) in H. destruct H as [<-|H]; [cbn; lia|].
+      assert (x < N); [|lia]. apply Fr. apply in_app_iff. left. exact H.
+    + assert (x < N); [|lia]. apply Fr. apply in_app_iff. right. apply in_app_iff. exact H.
+  - split; [|split].
+    + eapply Permutation_NoDup; [apply Permutation_cons_append|]. constructor; assumption.
+    + eapply Permutation_NoDup; [apply Permutation_map; symmetry; exact P2|]. cbn [map nep nd].
+      constructor; [intros H; apply M; apply S3; exact H|exact S2].
+    + intros e. rewrite in_app_iff. cbn [In]. rewrite <- S3. split.
+      * intros H. apply (Permutation_in _ (Permutation_map nep P2)) in H. destruct H as [<-|H]; [right; left; reflexivity|left; exact H].
+      * intros H. eapply Permutation_in; [apply Permutation_map; symmetry; exact P2|]. cbn [map nep nd].
+        destruct H as [H|[<-|[]]]; [right; exact H|left; reflexivity].
+Qed.
+
+Lemma core_remove s ep s' ev : Core s -> do_remove_server s ep = (s', ev) -> Core s'.
+Proof.
+  intros C D. unfold do_remove_server in D.
+  destruct (c_srv s C) as (S1 & S2 & S3).
+  assert (Sr : NoDup (remz ep (servers s))) by (apply NoDup_filter; exact S1).
+  destruct (pos_of_ep (heap s) ep) as [i|] eqn:P.
+  - apply pos_of_ep_some in P as [Hi Hep].
+    inversion D; subst s' ev. clear D.
+    set (l := heap s) in *. set (nd := H_at l i) in *.
+    pose proof (okl_remove l l i eq_refl Hi (c_ok s C) (fun p _ _ => eq_refl)) as R. cbn zeta in R.
+    set (l4 := if Nat.eqb i (length l) then H_fix_down (H_swap l i (length l)) i (length l - 1)
+               else H_fix_up (H_fix_down (H_swap l i (length l)) i (length l - 1)) i) in *.
+    destruct R as (R1 & R2 & R3 & R4).
+    set (l5 := H_pop l4).
+    assert (E5 : l4 = l5 ++ [nd]).
+    { unfold l5. rewrite (pop_app l4) at 1 by lia. rewrite R4. fold (H_at l i) in R2. rewrite R2. reflexivity. }
+    assert (P5 : Permutation (nd :: l5) l).
+    { etransitivity; [apply Permutation_cons_append|]. rewrite <- E5. exact R3. }
+    assert (L5 : length l5 = (length l - 1)%nat) by (unfold l5; rewrite len_pop, R4; reflexivity).
+    assert (Hndin : In nd l) by (apply in_F; exact Hi).
+    assert (Hnep : nep nd = ep) by exact Hep.
+    assert (NDe : NoDup (ep :: map nep l5)).
+    { rewrite <- Hnep. change (NoDup (map nep (nd :: l5))). eapply Permutation_NoDup; [apply Permutation_map; symmetry; exact P5|exact S2]. }
+    constructor; cbn [heap downq detached servers next_nid reqs]; fold l nd l4 l5.
+    + rewrite L5. apply okl_pop; [lia|exact R1].
+    + cbn [dnids map fst]. eapply Permutation_NoDup; [|apply (c_nodup s C)].
+      etransitivity; [apply Permutation_app_tail; apply Permutation_map; symmetry; exact P5|].
+      cbn [map app]. apply Permutation_middle.
+    + apply C.
+    + intros y Hy. apply (c_cons s C). eapply Permutation_in; [exact P5|right; exact Hy].
+    + intros x b [E|Hin]; [|apply (c_dcons s C); exact Hin]. inversion E; subst x b.
+      rewrite (c_cons s C nd Hndin). unfold pen. reflexivity.
+    + intros r x Hr. apply (c_reqs s C) in Hr. rewrite in_app_iff in *. cbn [dnids map fst In].
+      destruct Hr as [H|H]; [|right; right; exact H].
+      apply (Permutation_in _ (Permutation_map nid (Permutation_sym P5))) in H.
+      destruct H as [<-|H]; [right; left; reflexivity|left; exact H].
+    + intros x Hx. apply (c_fresh s C). rewrite !in_app_iff in *. cbn [dnids map fst In] in Hx.
+      destruct Hx as [H|[[<-|H]|H]].
+      * left. eapply Permutation_in; [apply Permutation_map; exact P5|right; exact H].
+      * left. apply in_map. exact Hndin.
+      * right. left. exact H.
+      * right. right. exact H.
+    + split; [exact Sr|]. split; [inversion NDe; assumption|].
+      intros e. rewrite in_remz, <- S3. split.
+      * intros H. split.
+        -- eapply Permutation_in; [apply Permutation_map; exact P5|right; exact H].
+        -- intros ->. inversion NDe; contradiction.
+      * intros [H Hne]. apply (Permutation_in _ (Permutation_map nep (Permutation_sym P5))) in H.
+        destruct H as [H|H]; [cbn in H; congruence|exact H].
+  - apply pos_of_ep_none in P. inversion D; subst s' ev. clear D.
+    constructor; cbn [heap downq detached servers next_nid reqs]; try apply C.
+    split; [exact Sr|]. split; [exact S2|]. intros e. rewrite in_remz, <- S3. split; [|intros [H _]; exact H].
+    intros H. split; [exact H|]. intros ->. contradiction.
+Qed.
+
+Lemma core_notif s nt s' ev : Core s -> do_notif s nt = (s', ev) -> Core s'.
+Proof. destruct nt; cbn [do_notif]; [apply core_add|apply core_remove]. Qed.
+
+Lemma core_notifs : forall l s s' ev, Core s -> do_notifs s l = (s', ev) -> Core s'.
+Proof.
+  induction l as [|nt r IH]; intros s s' ev C D; cbn [do_notifs] in D.
+  - inversion D; subst. exact C.
+  - destruct (do_notif s nt) as [s1 ev1] eqn:D1. destruct (do_notifs s1 r) as [s2 ev2] eqn:D2.
+    inversion D; subst. eapply IH; [|exact D2]. eapply core_notif; eassumption.
+Qed.
+
+(* the gate: before the initial list is installed nothing has happened to the heap *)
+Definition Gate (s : state) : Prop :=
+  if init_done s then blocked s = [] else heap s = [] /\ servers s = [] /\ downq s = [] /\ detached s = [] /\ reqs s = [].
+
+Definition Inv (s : state) : Prop := Core s /\ Gate s.
+
+Lemma core_set_gate s srv d b : Core s -> srv = servers s -> Core (set_gate s srv d b).
+Proof. intros C ->. destruct C. constructor; assumption. Qed.
+
+Lemma notif_gate s nt s' ev : do_notif s nt = (s', ev) -> init_done s' = init_done s /\ blocked s' = blocked s.
+Proof.
+  destruct nt; cbn [do_notif]; unfold do_add_server, do_remove_server.
+  - destruct (memz ep (servers s)); intros H; inversion H; subst; split; reflexivity.
+  - destruct (pos_of_ep (heap s) ep); intros H; inversion H; subst; split; reflexivity.
+Qed.
+
+Lemma notifs_gate : forall l s s' ev, do_notifs s l = (s', ev) -> init_done s' = init_done s /\ blocked s' = blocked s.
+Proof.
+  induction l as [|nt r IH]; intros s s' ev D; cbn [do_notifs] in D.
+  - inversion D; subst. split; reflexivity.
+  - destruct (do_notif s nt) as [s1 ev1] eqn:D1. destruct (do_notifs s1 r) as [s2 ev2] eqn:D2.
+    inversion D; subst. destruct (notif_gate _ _ _ _ D1) as [A1 A2]. destruct (IH _ _ _ D2) as [B1 B2].
+    split; congruence.
+Qed.
+
+Lemma init_state_inv s0 : Inv (init_state s0).
+Proof.
+  split; [|cbn; repeat split].
+  constructor; cbn; try constructor; try (intros; contradiction).
+  - intros i Hi. lia.
+  - intros y [].
+  - constructor.
+  - split; [constructor|]. intros ep. split; intros [].
+Qed.
+
+Lemma inv_step s lb : Inv s -> Inv (fst (step s lb)).
+Proof.
+  intros [C G]. destruct lb as [snap|ep|ep| |rid j|x st]; cbn [step].
+  - (* Init *)
+    unfold do_init. unfold Gate in G. destruct (init_done s) eqn:I; [cbn [fst]; split; [exact C|unfold Gate; rewrite I; exact G]|].
+    destruct G as (G1 & G2 & G3 & G4 & G5).
+    destruct (do_notifs (set_gate s [] false (blocked s)) (map NJoin snapshot)) as [s1 ev1] eqn:D1.
+    destruct (do_notifs (set_gate s1 (servers s1) true []) (blocked s1)) as [s2 ev2] eqn:D2.
+    cbn [fst].
+    assert (C0 : Core (set_gate s [] false (blocked s))) by (apply core_set_gate; [exact C|symmetry; exact G2]).
+    pose proof (core_notifs _ _ _ _ C0 D1) as C1.
+    assert (C1' : Core (set_gate s1 (servers s1) true [])) by (apply core_set_gate; [exact C1|reflexivity]).
+    pose proof (core_notifs _ _ _ _ C1' D2) as C2.
+    split; [exact C2|]. destruct (notifs_gate _ _ _ _ D2) as [A1 A2]. unfold Gate. rewrite A1. cbn. exact A2.
+  - (* Join *)
+    unfold do_notify. unfold Gate in G. destruct (init_done s) eqn:I.
+    + destruct (do_notif s (NJoin ep)) as [s1 ev] eqn:D. cbn [fst]. split; [eapply core_notif; eassumption|].
+      destruct (notif_gate _ _ _ _ D) as [A1 A2]. unfold Gate. rewrite A1, I, A2. exact G.
+    + cbn [fst]. split; [apply core_set_gate; [exact C|reflexivity]|]. unfold Gate. cbn. rewrite I. exact G.
+  - (* Leave *)
+    unfold do_notify. unfold Gate in G. destruct (init_done s) eqn:I.
+    + destruct (do_notif s (NLeave ep)) as [s1 ev] eqn:D. cbn [fst]. split; [eapply core_notif; eassumption|].
+      destruct (notif_gate _ _ _ _ D) as [A1 A2]. unfold Gate. rewrite A1, I, A2. exact G.
+    + cbn [fst]. split; [apply core_set_gate; [exact C|reflexivity]|]. unfold Gate. cbn. rewrite I. exact G.
+  - (* Dispatch *)
+    destruct (do_dispatch s) as [s1 o] eqn:D. cbn [fst]. split; [eapply core_dispatch; eassumption|].
+    unfold do_dispatch in D. unfold Gate in *. destruct (init_done s) eqn:I; cbn [negb] in D; [|inversion D; subst; rewrite I; exact G].
+    destruct (heap s); [inversion D; subst; rewrite I; exact G|].
+    destruct (get _ _ _ _) as [[[l1 dq1] ev]|]; inversion D; subst; cbn; rewrite ?I; exact G.
+  - (* Complete *)
+    destruct (do_complete s rid j) as [s1 o] eqn:D. cbn [fst]. split; [eapply core_complete; eassumption|].
+    unfold Gate in *. destruct (init_done s) eqn:I.
+    + assert (E : init_done s1 = true /\ blocked s1 = blocked s); [|destruct E as [E1 E2]; rewrite E1, E2; exact G].
+      unfold do_complete in D. destruct (find_req (reqs s) rid) as [[x [|]]|]; try (inversion D; subst; split; [exact I|reflexivity]).
+      unfold do_put in D. cbn [heap set_reqs detached] in D.
+      destruct (pos_of_nid (heap s) x).
+      * destruct (clamp _) as [v e0].
+        destruct ((v =? Idle) && _); [destruct ((1 <=? j) && _)|]; inversion D; subst; cbn; split; (exact I || reflexivity).
+      * destruct (put_detached (detached s) x) as [[d' e0]|]; inversion D; subst; cbn; split; (exact I || reflexivity).
+    + destruct G as (G1 & G2 & G3 & G4 & G5). unfold do_complete in D. rewrite G5 in D. cbn in D. inversion D; subst.
+      rewrite I. repeat split; assumption.
+  - (* SetChan *)
+    cbn [fst]. split; [destruct C; constructor; assumption|]. unfold Gate in *. cbn. exact G.
+Qed.
+
+Theorem inv_run : forall ls s, Inv s -> Inv (run s ls).
+Proof.
+  induction ls as [|lb r IH]; intros s H; cbn [run]; [exact H|]. apply IH. apply inv_step. exact H.
+Qed.
